@@ -446,6 +446,46 @@ func TestPrecedenceLevels(t *testing.T) {
 	})
 }
 
+// alternatives of one rule handle whose symbol names run together to the same text (un op e / unop e; "a" "b" / "ab";
+// x y / xy): each is a production of its own
+func TestAlternativesWithConcatenatingNames(t *testing.T) {
+	rec.Begin(t)
+	rec.Rule(rule)
+	if rec.Shard() != 0 {
+		t.Skip("seed independent: shard 0 only")
+	}
+	nt := func(s string) *ref.RHS { return &ref.RHS{K: "nt", Name: s} }
+	str := func(s string) *ref.RHS { return &ref.RHS{K: "str", Name: s} }
+	cat := func(s ...*ref.RHS) *ref.RHS { return &ref.RHS{K: "cat", Subs: s} }
+	alt := func(s ...*ref.RHS) *ref.RHS { return &ref.RHS{K: "alt", Subs: s} }
+	rule := func(name string, r *ref.RHS) *ref.Decl { return &ref.Decl{Kind: "rule", Name: name, RHS: r, Semi: true} }
+	for i, body := range []*ref.RHS{
+		alt(cat(nt("un"), nt("op"), nt("e")), cat(nt("unop"), nt("e"))),
+		alt(cat(nt("e"), nt("x"), nt("y")), cat(nt("e"), nt("xy")), cat(nt("ex"), nt("y"))),
+		alt(cat(nt("un"), nt("op"), nt("e")), cat(nt("unop"), nt("e")), cat(nt("u"), nt("nop"), nt("e"))),
+	} {
+		for _, after := range []bool{false, true} {
+			full := &ref.RHS{K: "alt", Subs: append(append([]*ref.RHS{}, body.Subs...), str("z"))}
+			dir := &ref.Decl{Kind: "directive", Assoc: "@left", Handles: []*ref.Handle{{Rule: rule("e", body)}}, Semi: true}
+			m := &ref.SpecModel{Name: "g", NameSemi: true}
+			rules := []*ref.Decl{rule("start", nt("e")), rule("e", full)}
+			for _, n := range []string{"un", "op", "unop", "x", "y", "xy", "ex", "u", "nop"} {
+				rules = append(rules, rule(n, str("t_"+n)))
+			}
+			if after {
+				m.Decls = append(append(m.Decls, rules...), dir)
+			} else {
+				m.Decls = append(append(m.Decls, dir), rules...)
+			}
+			src := m.Text()
+			rec.Case(src, true, "alternatives_with_concatenating_names")
+			if err := checkModel(m, src); err != nil {
+				rec.Fail(t, "model", input{Model: m, Spec: src}, "case %d: %v", i, err)
+			}
+		}
+	}
+}
+
 func TestReplay(t *testing.T) {
 	if !rec.IsReplay() {
 		t.Skip("not in replay mode")
